@@ -656,7 +656,7 @@ impl Prop for Lower {
     }
     fn cases(&self, tier: Tier) -> u64 {
         match tier {
-            Tier::Quick => 30_000,
+            Tier::Quick => 120_000,
             Tier::Thorough => 1_000_000,
         }
     }
